@@ -3,6 +3,7 @@ package c14
 import (
 	"encoding/json"
 	"fmt"
+	"runtime"
 	"strings"
 	"sync"
 	"sync/atomic"
@@ -42,12 +43,15 @@ type scenario struct {
 	Shape        int          `json:"shape"`
 	Callers      []callerSpec `json:"callers"`
 	StartWithVal bool         `json:"startWithVal"`
-	Plan         vlib.Plan    `json:"plan"`
+	// Eager: the callers are started BEFORE the target and spin until target.IsStarted()
+	// before their first YieldFrom (so requests race with Start/StartWithVal itself)
+	Eager bool      `json:"eager"`
+	Plan  vlib.Plan `json:"plan"`
 }
 
 func (s scenario) String() string {
 	var sb strings.Builder
-	fmt.Fprintf(&sb, "shape=%s startWithVal=%v callers=", []string{"fixed", "echo", "accumulate"}[s.Shape], s.StartWithVal)
+	fmt.Fprintf(&sb, "shape=%s startWithVal=%v eager=%v callers=", []string{"fixed", "echo", "accumulate"}[s.Shape], s.StartWithVal, s.Eager)
 	for _, c := range s.Callers {
 		fmt.Fprintf(&sb, "[%s k=%d io@%d h=%v gap=%d]", []string{"cor", "do"}[c.Kind], c.K, c.IOAt, c.IOHandler, c.Gap)
 	}
@@ -78,6 +82,7 @@ func genScenario(t *rapid.T) scenario {
 		s.Callers = append(s.Callers, c)
 	}
 	s.StartWithVal = rapid.Bool().Draw(t, "startWithVal")
+	s.Eager = rapid.Bool().Draw(t, "eager")
 	s.Plan = vlib.DrawPlan(t, corPoints, 6)
 	return s
 }
@@ -160,6 +165,11 @@ func runScenario(s scenario) result {
 	callerBody := func(i int, self *fpgo.CorDef[int]) int {
 		spec := s.Callers[i]
 		last := 0
+		if s.Eager {
+			for !target.IsStarted() {
+				runtime.Gosched()
+			}
+		}
 		for j := 0; j < spec.K; j++ {
 			if spec.IOAt == j {
 				want := 9000 + i
@@ -201,11 +211,17 @@ func runScenario(s scenario) result {
 			atomic.AddInt32(&startedInside, 1)
 		}
 	}
-	// start everything: target first or last (both must work: requests queue up)
-	if s.StartWithVal {
-		target.StartWithVal(startVal)
+	startTarget := func() {
+		if s.StartWithVal {
+			target.StartWithVal(startVal)
+		} else {
+			target.Start()
+		}
+	}
+	if !s.Eager {
+		startTarget()
 	} else {
-		target.Start()
+		defer func() {}() // (eager: the target is started after the callers, below)
 	}
 	for i, spec := range s.Callers {
 		i := i
@@ -223,6 +239,13 @@ func runScenario(s scenario) result {
 				doResults[i] = [2]int{want, got}
 			})
 		}
+	}
+	if s.Eager {
+		// give the callers a moment to reach their spin loop, then start the target
+		for g := 0; g < 20; g++ {
+			runtime.Gosched()
+		}
+		startTarget()
 	}
 	done := make(chan struct{})
 	go func() { wg.Wait(); <-targetFinished; close(done) }()
@@ -375,6 +398,7 @@ func report(t vlib.TB, s scenario, res result, skip func()) {
 func TestRegress(t *testing.T) {
 	cases := []scenario{
 		{Shape: shapeFixed, Callers: []callerSpec{{K: 3, IOAt: -1}}},
+		{Shape: shapeFixed, Callers: []callerSpec{{K: 3, IOAt: -1}, {K: 3, IOAt: -1}, {K: 2, IOAt: -1, Kind: kindDoNotation}}, StartWithVal: true, Eager: true},
 		{Shape: shapeEcho, Callers: []callerSpec{{K: 8, IOAt: -1}, {K: 8, IOAt: 2, IOHandler: true}}, StartWithVal: true},
 		{Shape: shapeAccumulate, Callers: []callerSpec{{K: 5, Kind: kindDoNotation, IOAt: 0}, {K: 5, IOAt: -1}, {K: 5, Kind: kindDoNotation, IOAt: -1}}},
 		{Shape: shapeFixed, Callers: []callerSpec{{K: 4, IOAt: -1}, {K: 4, IOAt: -1}, {K: 4, IOAt: -1}, {K: 4, IOAt: -1}, {K: 4, IOAt: -1}, {K: 4, IOAt: -1}, {K: 4, IOAt: -1}, {K: 4, IOAt: -1}}, StartWithVal: true},
